@@ -11,6 +11,8 @@ from vf.sym import Ob, Violation, assume, check, pick
 
 def _getter(self):
     self._calls = getattr(self, "_calls", 0) + 1
+    if self.u is None:
+        return None  # a getter may legitimately return None (falsy / None results must be cached and overridable too)
     return self.u * 2
 
 
@@ -65,6 +67,8 @@ class Model:
             if self.wp:
                 return ("ok", 3)  # "neg" cast by the preparer
             return ("raise", ValueError)  # getter result fails the attribute's type check
+        if self.u is None:
+            return ("ok", None)
         return ("ok", self.u * 2)
 
     def read(self):
@@ -108,7 +112,7 @@ def run_real(fn):
 
 
 def make_step(kind, nops):
-    def h(o: bool, c: bool, s: bool, d: bool, wp: bool, u0: int, op1: int, v1: int, op2: int, v2: int, op3: int, v3: int) -> str:
+    def h(o: bool, c: bool, s: bool, d: bool, wp: bool, u0: int, op1: int, v1: int, op2: int, v2: int, op3: int, v3: int, z1: bool, z2: bool, z3: bool) -> str:
         flags = (bool(o), bool(c), bool(s), bool(d))
         if kind == "plain":
             cls = PLAIN[flags]
@@ -122,10 +126,12 @@ def make_step(kind, nops):
         else:
             inst.u = u0
         model = Model(flags, u0, kind, wp_)
-        ops = [(op1, v1), (op2, v2), (op3, v3)][:nops]
+        ops = [(op1, v1, z1), (op2, v2, z2), (op3, v3, z3)][:nops]
         trace = []
-        for t, (op, v) in enumerate(ops):
+        for t, (op, v, z) in enumerate(ops):
             assume(0 <= op <= 3)
+            if kind == "plain" and op in (1, 3) and z:
+                v = None  # None as assigned value / underlying state
             if op == 0:
                 want = model.read()
                 got = run_real(lambda: inst.p)
@@ -186,7 +192,7 @@ CPS = {(c, p, o): _make_cp(c, p, o) for c in (False, True) for p in (False, True
 
 
 def make_cp_step(nops, fixed=None):
-    def h(cache: bool, per_sub: bool, overridable: bool, base0: int, op1: int, w1: int, v1: int, op2: int, w2: int, v2: int, op3: int, w3: int, v3: int) -> str:
+    def h(cache: bool, per_sub: bool, overridable: bool, base0: int, op1: int, w1: int, v1: int, op2: int, w2: int, v2: int, op3: int, w3: int, v3: int, z1: bool, z2: bool, z3: bool) -> str:
         cache, per_sub, overridable = fixed if fixed is not None else (bool(cache), bool(per_sub), bool(overridable))
 
         # descriptor + hierarchy are built at import time (CrossHair mis-models calling a class with a custom __new__
@@ -201,10 +207,12 @@ def make_cp_step(nops, fixed=None):
         def key(k):
             return k if per_sub else None
 
-        ops = [(op1, w1, v1), (op2, w2, v2), (op3, w3, v3)][:nops]
+        ops = [(op1, w1, v1, z1), (op2, w2, v2, z2), (op3, w3, v3, z3)][:nops]
         trace = []
-        for op, w, v in ops:
+        for op, w, v, z in ops:
             assume(0 <= op <= 4)
+            if op == 2 and z:
+                v = None  # override with None
             assume(0 <= w <= 2)
             K = pick(classes, w)
             ki = classes.index(K)
@@ -248,11 +256,11 @@ def obligations(tier):
     obs = []
     nops = 2 if tier == "quick" else 3
     T = 200 if tier == "quick" else 1200
-    warm = [(o, c, s, d, wp, 3, a, 5, b, 7, 0, 1) for o in (False, True) for c in (False, True) for s in (False, True) for d in (False, True) for wp in (False,) for a in range(4) for b in (0, 2)]
-    obs.append(Ob(f"C12.plain.h{nops}", make_step("plain", nops), warm, f"plain class; overridable, cache, setter, deleter symbolic bools (all 16 combinations); history of {nops} operations from {{read, assign v, delete, change underlying}} with symbolic selectors and symbolic int values, followed by a final read", expect={"ok"}, timeout=T))
-    warm_s = [(o, c, s, d, wp, u, a, 5, b, 7, 0, 1) for o in (False, True) for c in (False, True) for s in (False,) for d in (False, True) for wp in (False, True) for a in range(4) for b in (0, 2) for u in (3, -2)]
+    warm = [(o, c, s, d, wp, 3, a, 5, b, 7, 0, 1, a == 1, False, False) for o in (False, True) for c in (False, True) for s in (False, True) for d in (False, True) for wp in (False,) for a in range(4) for b in (0, 2)]
+    obs.append(Ob(f"C12.plain.h{nops}", make_step("plain", nops), warm, f"plain class; overridable, cache, setter, deleter symbolic bools (all 16 combinations); history of {nops} operations from {{read, assign v, delete, change underlying}} with symbolic selectors and symbolic values (ints, or None by a symbolic flag), followed by a final read", expect={"ok"}, timeout=T))
+    warm_s = [(o, c, s, d, wp, u, a, 5, b, 7, 0, 1, False, False, False) for o in (False, True) for c in (False, True) for s in (False,) for d in (False, True) for wp in (False, True) for a in range(4) for b in (0, 2) for u in (3, -2)]
     obs.append(Ob(f"C12.spec.h{nops}", make_step("spec", nops), warm_s, f"spec class with managed annotation p:int, with/without preparer (symbolic); getter returns a str for negative underlying state (cast by the preparer or refused by the type check); same flags / history space as the plain shard", expect={"ok"}, timeout=T * 2))
-    warm_c = [(c, p, o, 2, a, 0, 5, b, 1, 6, 3, 2, 7) for c in (False, True) for p in (False, True) for o in (False, True) for a in range(5) for b in range(5)]
+    warm_c = [(c, p, o, 2, a, 0, 5, b, 1, 6, 3, 2, 7, a == 2, False, False) for c in (False, True) for p in (False, True) for o in (False, True) for a in range(5) for b in range(5)]
     for fx in [(c, p, o) for c in (False, True) for p in (False, True) for o in (False, True)]:
         obs.append(Ob(f"C12.classproperty.c{int(fx[0])}p{int(fx[1])}o{int(fx[2])}.h{nops}", make_cp_step(nops, fx), warm_c, f"classproperty(cache={fx[0]}, cache_per_subclass={fx[1]}, overridable={fx[2]}) on A>B>C; history of {nops} operations from {{read via class, read via instance, assign, delete, change class state}} on a symbolic class of the hierarchy", expect={"ok"}, timeout=T))
     return obs
